@@ -27,6 +27,9 @@ RINGS = {
     "log16": ("tab", "i16"), "mont32": ("mont", "u32"),
     "mI": ("mod", "I"), "mru7": ("mod", "ru7"), "mru67": ("mod", "ru6"),
     "gfq32": ("tab", "i32"), "gfq64": ("tab", "i64"),
+    # Montgomery<ruint<K>>: the stored element is the Montgomery image a*2^(2^K) mod p, an opaque representation here: like the table rings
+    # only convert / the round trips / the predicates are compared with the oracle (no model: NOMODEL)
+    "mgru6": ("tab", "ru6"), "mgru7": ("tab", "ru7"),
 }
 RING_CXX = {
     "mi8": "Modular<int8_t>", "mu8": "Modular<uint8_t>", "mi16": "Modular<int16_t>", "mu16": "Modular<uint16_t>",
@@ -39,6 +42,7 @@ RING_CXX = {
     "bi64": "ModularBalanced<int64_t>", "ef": "ModularExtended<float>", "ed": "ModularExtended<double>",
     "log16": "Modular<Log16>", "mont32": "Montgomery<int32_t>", "mI": "Modular<Integer>",
     "mru7": "Modular<ruint<7>>", "mru67": "Modular<ruint<6>,ruint<7>>", "gfq32": "GFqDom<int32_t>", "gfq64": "GFqDom<int64_t>",
+    "mgru6": "Montgomery<ruint<6>>", "mgru7": "Montgomery<ruint<7>>",
 }
 SRC_RANGE = {
     "i8": (-2**7, 2**7 - 1), "u8": (0, 2**8 - 1), "i16": (-2**15, 2**15 - 1), "u16": (0, 2**16 - 1),
@@ -51,7 +55,7 @@ SRC_CXX = {"i8": "int8_t", "u8": "uint8_t", "i16": "int16_t", "u16": "uint16_t",
            "ru6": "ruint<6>", "ru7": "ruint<7>", "ri6": "rint<6>", "ri7": "rint<7>"}
 MAIN_SRCS = ["i32", "u32", "i64", "u64", "ll", "ull", "f", "d", "I"]
 PARTS = [["mi8", "mu8", "mi16", "mu16"], ["mi32", "mu32", "mi64", "mu64"], ["mi8w", "mu8w", "mi16w", "mu16w"], ["mi32w", "mu32w", "mi64w", "mu64w"],
-         ["mf", "md", "mfd", "bd", "bf"], ["bi32", "bi64", "ef", "ed"], ["log16", "mont32", "mI", "gfq32", "gfq64"], ["mru7", "mru67"]]
+         ["mf", "md", "mfd", "bd", "bf"], ["bi32", "bi64", "ef", "ed"], ["log16", "mont32", "mI", "gfq32", "gfq64"], ["mru7", "mru67", "mgru6", "mgru7"]]
 PART_OF = {r: i for i, rs in enumerate(PARTS) for r in rs}
 SMALL_SRCS = ["i8", "u8", "i16", "u16"]
 RECINT_SRCS = ["ru6", "ru7", "ri6", "ri7"]
@@ -123,8 +127,8 @@ def moduli(ring, lo, hi, rng, tier):
     ms = sorted(m for m in want if lo <= m <= hi)
     if ring == "log16":                        # table over Z/p: p prime
         ms = sorted({m for m in ms if is_prime(m)} | {prevprime(hi + 1)})
-    if ring == "mont32":                       # B = 2^16 must be invertible mod p
-        ms = [m for m in ms if m % 2 == 1]
+    if ring in ("mont32", "mgru6", "mgru7"):   # B must be invertible mod p
+        ms = [m for m in ms if m % 2 == 1 and m >= 3]
     nkeep = 9 if tier == "quick" else 30
     if len(ms) > nkeep:
         keep = set(ms[:3]) | set(ms[-3:])
@@ -193,7 +197,7 @@ def kp_moduli(ring, lo, hi, extra=()):
     ms = sorted(m for m in want if lo <= m <= hi)
     if ring == "log16":
         ms = sorted({prevprime(m + 1) for m in ms if m >= 2})
-    if ring == "mont32":
+    if ring in ("mont32", "mgru6", "mgru7"):
         ms = sorted({m if m % 2 else m - 1 for m in ms if m >= 3})
     must = [m for m in ms if m in KP_MUST or m in extra or m >= hi - 2 or m == lo or m == 1 << (hi.bit_length() - 1)]
     rest = [m for m in ms if m not in must]
@@ -378,7 +382,7 @@ def _integral(ring):
 
 # /repo commits that repaired the defect (frag/C04.fix-<n>.diff); None = repair proposed, not applied yet (finding stays `known`)
 FIX = {1: "964499d", 2: "6fd4ec8", 3: "0c8663a", 4: "6534350", 5: "e1cb767", 6: "3b7f5ec", 7: "d8dba27", 8: "5a5d83b", 9: "8a3f862", 10: "1bd6bf3", 11: "99e44e4", 12: "8c01dc7",
-       13: "b86ac06", 14: "df009ee", 15: "e6cb1e7", 16: None}
+       13: "b86ac06", 14: "df009ee", 15: "e6cb1e7", 16: "d984652", 17: None}
 
 
 _SRC_STATE = {}
@@ -439,10 +443,10 @@ def code_site(ring, src):
         else:
             ov = "const Source& generic"
     else:
-        fam = RING_CXX[ring]
+        fam = "Montgomery<ruint<K>> (montgomery-ruint.h)" if ring in ("mgru6", "mgru7") else RING_CXX[ring]
         explicit = {"bd": ("f", "d", "i64", "u64", "I"), "bf": ("f", "d", "i32", "u32", "i64", "u64", "I"), "bi32": ("f", "d", "i64", "u64", "I"),
                     "bi64": ("f", "d", "I"), "ef": ("d", "f", "i32", "u32", "i64", "u64", "I"), "ed": ("d", "f", "i64", "u64", "I"), "mont32": ("d", "i64", "u64", "I"), "mI": (),
-                    "mru7": ("I",), "mru67": ("I",), "gfq32": ("d", "f", "i32", "i64", "I", "u64", "u32"), "gfq64": ("d", "f", "i32", "i64", "I", "u64", "u32"),
+                    "mru7": ("I", "f", "d"), "mru67": ("I", "f", "d"), "mgru6": ("I",), "mgru7": ("I",), "gfq32": ("d", "f", "i32", "i64", "I", "u64", "u32"), "gfq64": ("d", "f", "i32", "i64", "I", "u64", "u32"),
                     "log16": ("i64", "i32", "u64", "u32", "u16", "i16", "d", "f", "I")}[ring]
         if src in explicit:
             ov = SRC_CXX[src]
@@ -531,6 +535,14 @@ def defect_rules():
          lambda r, s, m, x: abs(x) > recint_exact(RINGS[r][1]),
          "a RecInt source reaches the word rings through the generic Caster<Element>(a), a static_cast that keeps the low limb / narrows / rounds "
          "BEFORE the reduction: values the element type does not hold give a wrong residue", None),
+        # Montgomery<ruint<K>> (montgomery-ruint.h): the three defects Modular<ruint<K>> had before fix-7 / fix-11 / fix-14
+        ("type-min", lambda r: r in ("mgru6", "mgru7"), ("i32", "i64", "ll"), tmin,
+         "init<T> evaluates (a < 0)? -a : a in T: the negation of INT32_MIN overflows in int (of INT64_MIN in long) and the sign-extended "
+         "value is reduced (Montgomery<ruint<7>>(7).init(x, INT32_MIN) converts back to 0, expected 5)", 17),
+        ("wider-than-element", lambda r: r in ("mgru6", "mgru7"), ("I",), lambda r, s, m, x: abs(x) >= 2**(128 if r == "mgru7" else 64),
+         "init(const Integer&) casts |a| to ruint<K> BEFORE reducing: only the low 2^K bits of a wide Integer are kept", 17),
+        ("float-beyond-element-range", lambda r: r in ("mgru6", "mgru7"), ("f", "d"), lambda r, s, m, x: abs(x) >= 2**64,
+         "a double / float goes through the generic template and is cast to one 64-bit limb before reducing: undefined for |a| >= 2^64", 17),
         ("wider-than-element", lambda r: r in ("mru7", "mru67"), ("I",), lambda r, s, m, x: abs(x) >= 2**(128 if r == "mru7" else 64),
          "Caster<ruint<K>>(|a|) kept the low 2^K bits of the Integer before reducing", 7),
         ("dead-specialisation-beyond-exact-floating-range", lambda r: r == "ed", ("I", "i64", "u64", "f", "d"), lambda r, s, m, x: abs(x) >= 2**53,
@@ -609,6 +621,7 @@ def findings():
 
 # ------------------------------------------------------------------ running the implementation
 CASE_CPU = 20           # CPU seconds per case in the harness (ITIMER_PROF; a normal case takes microseconds, a table-ring construction < 2 s)
+CASE_CPU_AFTER_HANG = 4
 CASE_CPU_RETRY = 120    # budget of the single re-run of a case that did not return
 MODEL_CPU = 1200        # CPU seconds for one ring's stream through the extracted model (normally 1-3 s)
 
@@ -625,7 +638,9 @@ def run_impl(binary, lines, timeout=1800, slow=None):
     nhang = 0
     while rest and guard < 60:
         guard += 1
-        rc, o, err = vf.run_lines(binary, "".join(l + "\n" for l in rest), timeout=timeout, args=(str(CASE_CPU),))
+        # (once a case of this stream is CONFIRMED not to return, the rest of the stream runs with a small budget and without re-runs:
+        #  a change that hangs on a whole class of inputs must not stretch the check to hours)
+        rc, o, err = vf.run_lines(binary, "".join(l + "\n" for l in rest), timeout=timeout, args=(str(CASE_CPU if nhang == 0 else CASE_CPU_AFTER_HANG),))
         o = [l for l in o if not l.startswith("#")]
         if rc == 124 and err == "[timeout]":
             # our own tooling ran out of WALL time (machine load): the unanswered cases are inconclusive, not failures of the property
@@ -640,8 +655,8 @@ def run_impl(binary, lines, timeout=1800, slow=None):
         if rc == 75 and o and o[-1] == "HANG" and len(o) <= len(rest):
             n = len(o) - 1
             out += o[:n]
-            if nhang >= 2:
-                # two cases of this stream were already confirmed not to return with the large budget: further ones are not re-run
+            if nhang >= 1:
+                # a case of this stream was already confirmed not to return with the large budget: further ones are not re-run
                 out.append("HANG")
                 rest = rest[n + 1:]
                 continue
@@ -708,6 +723,7 @@ mi8w rt ru6, mi8w rt ru7, mru67 init ri7, mru67 init ru7, mru67 rt ri7, mru67 rt
 mu16w init ri6, mu16w init ri7, mu16w init ru6, mu16w init ru7, mu16w rt ri6, mu16w rt ri7,
 mu16w rt ru6, mu16w rt ru7, mu8w init ri6, mu8w init ri7, mu8w init ru6, mu8w init ru7,
 mu8w rt ri6, mu8w rt ri7, mu8w rt ru6, mu8w rt ru7,
+mgru6 init ri6, mgru6 init ri7, mgru6 init ru6, mgru6 init ru7, mgru6 rt ri6, mgru6 rt ri7, mgru6 rt ru6, mgru6 rt ru7, mgru7 init ri6, mgru7 init ri7, mgru7 init ru6, mgru7 init ru7, mgru7 rt ri6, mgru7 rt ri7, mgru7 rt ru6, mgru7 rt ru7,
 '''.replace('\n', ' ').split(','))
 EXPECTED_ABSENT = {e.strip() for e in EXPECTED_ABSENT if e.strip()}
 
